@@ -939,7 +939,46 @@ def compare_cause(kind, x, y):
     return None
 
 
-def cause_of(n):
+INF_DIV = "infer-fp:sign of x/(+-inf) inferred as strict although the quotient is zero"
+
+
+def prop_holds_fp(prop, w):
+    if isinstance(w, (bool, numpy.bool_)):
+        return True
+    return bool(dict(positive=w > 0, negative=w < 0, nonpositive=w <= 0, nonnegative=w >= 0, finite=numpy.isfinite(w)).get(prop, True))
+
+
+def inference_cause(rops, failure):
+    """the sign the implementation infers for a (rewritten) operand is false of its floating-point value"""
+    if failure is None or failure[0] != "fp":
+        return None
+    _, envf = decode_env(dict(q={}, f=failure[1]))
+    for o in rops:
+        if o.kind == "constant":
+            continue
+        try:
+            w = eval_fp(o, envf, check=False)
+        except Undefined:
+            continue
+        for prop in PROPS5:
+            try:
+                with quiet():
+                    a = o._is(prop)
+            except Exception:  # noqa: BLE001
+                continue
+            if a and not prop_holds_fp(prop, w):
+                if o.kind == "divide":
+                    try:
+                        d = eval_fp(o.operands[1], envf, check=False)
+                        if numpy.isinf(d):
+                            return INF_DIV
+                    except Undefined:
+                        pass
+                return f"infer-fp:_is_{prop}:{o.kind}"
+    return None
+
+
+def cause_of(n, failure=None):
     """Stable cause signature for a minimal expression whose rewriting changes its value."""
     F = fa()
     k = n.kind
@@ -950,10 +989,10 @@ def cause_of(n):
     except Exception:  # noqa: BLE001
         rops = ops
     if k in REL_INDEX and len(rops) == 2:
-        c = compare_cause(k, rops[0], rops[1])
+        c = inference_cause(rops, failure) or compare_cause(k, rops[0], rops[1])
         if c:
             return c
-    if k == "upcast" and ops and ops[0].kind == "downcast":
+    if k == "upcast" and ((ops and ops[0].kind == "downcast") or (rops and rops[0].kind == "downcast")):
         return "rule:upcast(downcast(x))->x"
     if k in ("add", "subtract", "multiply", "minimum", "maximum") and len(rops) == 2 and all(o.kind == "constant" for o in rops):
         try:
@@ -1018,6 +1057,28 @@ def value_fails(e, r, assignments):
 
 def minimal_cause(e, assignments):
     """smallest sub-expression whose own rewriting changes its value; its cause signature"""
+    F = fa()
+    # a constant leaf whose own rewriting (the rule `constant`) changes its value
+    seen = set()
+
+    def consts(x):
+        if id(x) in seen:
+            return
+        seen.add(id(x))
+        if x.kind == "constant":
+            yield x
+            return
+        for o in x.operands:
+            if isinstance(o, F.Expr):
+                yield from consts(o)
+
+    for c in consts(e):
+        res = real_rewrite(c)
+        if res[0] == "ok" and res[1] is not c:
+            f = value_fails(c, res[1], assignments[:1] or [dict(q={}, f={})])
+            if f is not None:
+                v = c.operands[0]
+                return f"rule:constant({'named constant' if isinstance(v, str) else type(v).__name__})", to_dag_safe(c), f
     typed = None
     for sub in sub_exprs(e):
         res = real_rewrite(sub)
@@ -1027,11 +1088,11 @@ def minimal_cause(e, assignments):
         if f is not None:
             if f[0] == "fp" and sub.kind in SIGN_SENSITIVE and zero_sign_only(sub, f[1]):
                 return SIGNZERO, to_dag_safe(sub), f
-            if typed is not None and f[0] == "fp":
-                # the value changes only in floating point and a smaller sub-expression changed its dtype:
-                # the cause is the dropped / moved implicit promotion of mixed-precision operands
+            if typed is not None:
+                # a smaller sub-expression changed its dtype under rewriting: the cause is the dropped / moved
+                # implicit promotion of mixed-precision operands (later folds then happen in the narrower dtype)
                 return MIXED, typed, f
-            return cause_of(sub), to_dag_safe(sub), f
+            return cause_of(sub, f), to_dag_safe(sub), f
         if typed is None:
             try:
                 t0, t1 = sub.get_type(), res[1].get_type()
